@@ -174,7 +174,13 @@ def check_switcher(case):
     with Seam(Pol()):
         for rounds in range(2):
             for name, handler in (("leaf->root switch", to_root), ("root->leaf switch", to_leaf)):
+                if fails:
+                    break  # the state is already inconsistent: what follows is not meaningful
                 active = sh.extract_active_global_state()
+                if len(active) != 1:
+                    fails.append(("switch-active-state", "%d-atom molecules before the %s: the active global state "
+                                  "has %d independent branches, expected 1" % (nl, name, len(active))))
+                    break
                 t = handler.send_event_time([copy_branch(active[0])])
                 # the mediator hands the branch of the root of the active unit
                 root_id = active[0].value.identifier[:1]
